@@ -45,6 +45,19 @@ def gen_case(rng, Ns=(2, 4, 8), origin=0, max_threads=4, max_ops=5, profile=None
     N = rng.choice(Ns)
     nthreads = rng.randint(2, max_threads)
     profile = profile or rng.choice(["mixed", "fill", "drain", "pc", "contend_full", "contend_empty"])
+    if profile == "cycles":
+        # fill beyond capacity, drain, fill again ... : every cycle must allow exactly N outstanding events
+        N = rng.choice(Ns); rounds = rng.randint(1, 2)
+        prod = []; cons = []
+        for c in range(rounds):
+            prod += [("pub", [1000 * (c + 1) + j]) for j in range(N + rng.randint(1, 2))]
+            cons += [("cons", [])] * (N + 1)
+        progs = [prod, cons] + ([[("pub", [7000 + j]) for j in range(rng.randint(1, 3))]] if rng.random() < 0.5 else [])
+        nthreads = len(progs)
+        total = sum(len(p) for p in progs)
+        sched = random_sched(rng, nthreads, rng.randint(total * 2, total * 5), burst=rng.choice([0.6, 0.85, 0.95]))
+        for _ in range(5 * max(len(p) for p in progs) + 8): sched += list(range(nthreads))
+        return mk_case(N, origin, progs, sched, {"profile": profile}, kind=kind)
     progs = []
     for t in range(nthreads):
         n = rng.randint(1, max_ops)
@@ -150,3 +163,21 @@ def nontrivial_window(case, recs):
             holders.discard(r[1])
     fe = any(r[0] == "ret" and r[2] in (0, 2) for r in recs)
     return switch and fe
+
+def oracle_reject_neutral(case, recs):
+    """C16 on the observable history of a ring: a rejected send takes 3 accesses plus 2 per lost recede race (and only another
+    producer's reservation makes it lose one); when everything is over no reservation is left behind"""
+    hits = []
+    calls, open_ = call_intervals(recs)
+    if case.meta.get("kind", "ring") == "ring":
+        for c in calls:
+            if c["code"] == 0:
+                accs = [r for r in recs[c["first"]:c["last"]] if r[0] == "acc" and r[1] == c["tid"]]
+                failed = [r for r in accs if r[3] == 3 and r[6] == 0]
+                if len(accs) != 3 + 2 * len(failed):
+                    hits.append((None, "rejected send of thread %d took %d accesses with %d lost recede races" % (c["tid"], len(accs), len(failed))))
+        fin = recs[-1][1] if recs and recs[-1][0] == "final" else None
+        done = all(any(r[0] == "skip" and r[1] == t for r in recs[-2 * len(case.meta["progs"]):]) for t in range(len(case.meta["progs"])))
+        if fin and done and len(fin) >= 4 and not (fin[2] == fin[1] and fin[3] == fin[0]):
+            hits.append((None, "reservation counters did not return to the published ones at quiescence: head=%d tail=%d enqueuer_tail=%d dequeuer_head=%d" % tuple(fin[:4])))
+    return hits
